@@ -16,6 +16,9 @@
  *                packets, three payloads under the 256 TOC bytes, corpus packets, concealment of every size in F
  *   small      = from the fresh state and from primed states: EVERY byte string of length <= 2 x 3 sample formats x FEC x
  *                frame-size alphabet F, with all inspection functions (thorough: every byte string of length 3 as well)
+ *   s4         = from the fresh state and two primed states: every TOC byte followed by EVERY string of 3 (quick: 4 as well from the fresh 48 kHz state; thorough 3..5 everywhere)
+ *                bytes over the 8-value structural alphabet {00,01,02,41,7F,80,FC,FF} (frame counts, VBR / padding flags, length
+ *                bytes at the 251/252 boundary, range-coder extremes), float decode + 16/24-bit FEC decode, inspection functions
  * Stages run in this order (a wall-clock deadline cuts from the end). Item numbers are fixed per stage, so a replay of an item
  * re-runs only the BFS levels it depends on.
  * Oracle (statement only): ASan-clean on exact-size heap blocks (packet copy without slack, PCM block of exactly
@@ -258,6 +261,26 @@ static void s3_item(long it,void *vctx){
    }
 }
 
+/* every TOC followed by every string of 3..maxbody bytes over a structural 8-value alphabet; item = (cfg slot, primed index, toc) */
+static int S4CFG[4], nS4, g_s4max;
+static const unsigned char S4A[8]={0x00,0x01,0x02,0x41,0x7F,0x80,0xFC,0xFF};
+static void s4_item(long it,void *vctx){
+   int toc=(int)(it&255), pi=(int)((it>>8)%3), k=(int)(it/(256*3)), L; const cfg_t *c=&CF[S4CFG[k]]; char ctx[400]; uint64_t h=h_root(S4CFG[k]); unsigned char *blk; (void)vctx;
+   if (pi>c->nprimed) return;
+   if (pi>0){ h=h_push(h,c->primed[pi-1][0]); if(c->primed[pi-1][1]>=0) h=h_push(h,c->primed[pi-1][1]); }
+   need_work(c->sz); hist_build(c,h,g_base); hist_desc(c,h,ctx,sizeof ctx);
+   for(L=3;L<=g_s4max;L++){ long v,nv=1L<<(3*L); int j;
+      if (!MC.tier && L==g_s4max && L>3 && (pi!=0||k!=0)) continue;      /* quick: the longest length only from the fresh 48 kHz stereo state */
+      blk=malloc(1+L); blk[0]=(unsigned char)toc;
+      for(v=0;v<nv;v++){ for(j=0;j<L;j++) blk[1+j]=S4A[(v>>(3*j))&7];
+         if (pi==0 && k==0) run_inspect(c,blk,1+L,"");
+         memcpy(g_work,g_base,c->sz); run_decode(c,g_work,ctx,2,blk,1+L,48*c->F25,0);
+         memcpy(g_work,g_base,c->sz); run_decode(c,g_work,ctx,(v&1)?0:1,blk,1+L,(v&2)?24*c->F25:8*c->F25,1);
+      }
+      free(blk);
+   }
+}
+
 /* ------------------------------------------------------------------ alphabet construction */
 static int find_pkt(const char *name,int pos){ int s; for(s=0;s<C.ns;s++) if(!strcmp(C.s[s].name,name)){ if(pos<C.s[s].n) return C.s[s].first+pos; } fprintf(stderr,"c01: corpus stream '%s' pos %d missing\n",name,pos); exit(2); }
 static void add_op(cfg_t *c,int kind,int fs,int fec,int arg,const cpkt *b,const unsigned char *raw,int rawlen,const char *tagfmt,...){
@@ -331,7 +354,7 @@ int main(int argc,char **argv){
    static const int RATES[5]={48000,16000,8000,24000,12000}; int i,d,hstride,lbstride,do_s3; long n,skipped=0; mc_ctr *st,*dn,*cls,*lvl[5];
    mc_init(argc,argv,"C01","ss");
    g_replay=MC.only_item; exact_init();
-   g_depth=(int)mc_arg("--depth",MC.tier?3:2); hstride=(int)mc_arg("--hstride",MC.tier?2:1); lbstride=(int)mc_arg("--lbstride",MC.tier?6:12); g_classkey=(int)mc_arg("--classkey",MC.tier?0:1); do_s3=(int)mc_arg("--s3",MC.tier?1:0); int stages=(int)mc_arg("--stages",15);
+   g_depth=(int)mc_arg("--depth",MC.tier?3:2); hstride=(int)mc_arg("--hstride",MC.tier?2:1); lbstride=(int)mc_arg("--lbstride",MC.tier?6:12); g_classkey=(int)mc_arg("--classkey",MC.tier?0:1); do_s3=(int)mc_arg("--s3",MC.tier?1:0); int stages=(int)mc_arg("--stages",31); g_s4max=(int)mc_arg("--s4max",MC.tier?5:4);
    c_trans=mc_counter("transitions"); c_eval=mc_counter("evaluations"); c_decoded=mc_counter("calls_returning_samples"); c_rejected=mc_counter("calls_returning_error"); c_insp=mc_counter("inspection_calls");
    c_valid=mc_counter("valid_framing_clause_checked"); c_adv_lastdur=mc_counter("advisory_last_duration_differs"); c_adv_plc=mc_counter("advisory_plc_count_not_exact"); c_bfs_trans=mc_counter("bfs_transitions");
    st=mc_counter("states"); dn=mc_counter("distinct_nontrivial"); cls=mc_counter("state_classes");
@@ -358,8 +381,9 @@ int main(int argc,char **argv){
 
    /* fixed item ranges for the stages that do not depend on the BFS (cheap replays), then the data-dependent ones */
    if (do_s3){ S3CFG[nS3++]=0; for(i=0;i<ncfg;i++) if(CF[i].Fs==16000&&CF[i].ch==1){ S3CFG[nS3++]=i; break; } }
-   long n_probe=ncfg, n_clo=(long)ncfg*nB12*CL_SLICES, n_small=(long)ncfg*8*256, n_s3=(long)nS3*65536;
-   long b_probe=stage_reserve(n_probe), b_lbrr=stage_reserve(1), b_clo=stage_reserve(n_clo), b_small=stage_reserve(n_small), b_s3=stage_reserve(n_s3);
+   S4CFG[nS4++]=0; for(i=0;i<ncfg;i++) if(CF[i].Fs==16000&&CF[i].ch==1){ S4CFG[nS4++]=i; break; } for(i=0;i<ncfg;i++) if(CF[i].Fs==8000&&CF[i].ch==2){ S4CFG[nS4++]=i; break; }
+   long n_probe=ncfg, n_clo=(long)ncfg*nB12*CL_SLICES, n_small=(long)ncfg*8*256, n_s3=(long)nS3*65536, n_s4=(long)nS4*3*256;
+   long b_probe=stage_reserve(n_probe), b_lbrr=stage_reserve(1), b_clo=stage_reserve(n_clo), b_small=stage_reserve(n_small), b_s3=stage_reserve(n_s3), b_s4=stage_reserve(n_s4);
    g_t=now_s();
    /* ---------------- stage 1: BFS on full-image hashes */
    for(i=0;i<ncfg;i++){ uint64_t h=h_root(i); htab_put(T_states,mc_hash(CF[i].fresh,CF[i].sz,0xC01000+i),h); htab_put(T_classes,class_key(&CF[i],(OpusDecoder*)CF[i].fresh,i),h); }
@@ -373,6 +397,7 @@ int main(int argc,char **argv){
    if(stages&1){ cls_ctx cc; cc.reps=htab_collect(T_classes,-1,&cc.n); *cls=cc.n; stage_par(cc.n,cls_item,&cc,0); free(cc.reps); stage_info("classes",cc.n); }
    if(stages&2) stage_par_at(b_small,n_small,small_item,NULL,0); stage_info("small",(long)ncfg*8*256);
    if (do_s3){ stage_par_at(b_s3,n_s3,s3_item,NULL,0); stage_info("s3",(long)nS3*65536); }
+   if(stages&16){ stage_par_at(b_s4,n_s4,s4_item,NULL,0); stage_info("s4",n_s4); }
    n=__atomic_load_n(&T_states->count,__ATOMIC_RELAXED);
    *st=n+mc_set_count(lastlevel); *dn=mc_set_count(obs);
    return mc_finish();
